@@ -48,6 +48,7 @@ def extra(cases, verdicts):
         if any(v["max_distance"] or v["max_duration"] or v["tour_size"] for v in sp.get("vehicles", [])): feats["limits"] += 1
         if len(sp.get("profiles", [])) > 1: feats["two_profiles"] += 1
         if ((c.get("impl") or {}).get("sp_final") or {}).get("relations"): feats["relations"] += 1
+        if sp.get("objectives"): feats["explicit_objectives"] += 1
         if sp.get("clustering"): feats["vicinity_clustering"] += 1
         if (sp.get("clustering") or {}).get("filtering") is not None: feats["clustering_with_explicit_filtering"] += 1
     return {"solver_runs": len(cases), "tours_checked": tours, "populations": dict(pops), "hyper_heuristics": dict(hyp),
@@ -59,6 +60,7 @@ RULE = ("pragen problems (4-14 jobs; random mix of: multi-task jobs with tags, a
         "profiles, open/closed and multiple shifts, relations derived from a first solve) with METRIC matrices, solved by the real solver "
         "built through the vrp-cli config reader under an enumerated configuration row (population greedy/elitism/rosomaxa x hyper "
         "static-full/dynamic/local-heavy/ruin-recreate-only x termination generations/time/variation x Parallelism layouts 1x1..2x8); corpus: "
-        "the crafted non-metric instance of known finding S7; every sixth problem asks for vicinity clustering (both visiting policies, all serving "
+        "the crafted non-metric instance of known finding S7; every fifth problem states explicit objectives (work balance, compact tours, arrival time, fast service, distance/duration cost kinds, "
+        "maximize tours), every twelfth has long tours (30-44 jobs on 1-2 vehicles); every sixth problem asks for vicinity clustering (both visiting policies, all serving "
         "policies, with/without an explicit filtering list, relations derived in half of them) and is judged by the partition specification only. Non-trivial: >= 2 tours, or >= 1 tour and >= 1 unassigned job. "
         "Distinct = SHA-256 of the canonical case input")
